@@ -54,6 +54,30 @@ section memory
 open Ladim.Memory
 variable {α : Type} [LT α] [DecidableLT α]
 
+/-- over any history of per-particle updates (a different rule in every step, e.g. different forcing and draws), the
+final state of each particle is the history applied to that particle alone: no step lets one particle see another -/
+theorem update_history_pointwise {π : Type} (steps : List (π → π)) (ps : List π) :
+    steps.foldl (fun qs f => qs.map f) ps = ps.map (fun p => steps.foldl (fun q f => f q) p) := by
+  induction steps generalizing ps with
+  | nil => simp
+  | cons f fs ih => simp only [List.foldl]; rw [ih, List.map_map]; rfl
+
+/-- … and removing particles at any point of the history commutes with the rest of the history -/
+theorem update_history_filter {π : Type} (steps : List (π → π)) (keep : π → Bool) (ps : List π)
+    (hk : ∀ f ∈ steps, ∀ p, keep (f p) = keep p) :
+    (steps.foldl (fun qs f => qs.map f) ps).filter keep = steps.foldl (fun qs f => qs.map f) (ps.filter keep) := by
+  induction steps generalizing ps with
+  | nil => rfl
+  | cons f fs ih =>
+    simp only [List.foldl]
+    rw [ih _ (fun g hg => hk g (List.mem_cons_of_mem _ hg))]
+    congr 1
+    rw [List.filter_map]
+    congr 1
+    apply List.filter_congr
+    intro p _
+    exact hk f (List.mem_cons_self) p
+
 /-- records of *other* particles are irrelevant: the decision for `r` only reads the stored
 record whose pid is `r.pid` -/
 theorem stuck_ignores_others (mem : List (Rec α)) (r : Rec α) :
